@@ -3,7 +3,10 @@ package main
 import (
 	"context"
 	"fmt"
+	"net"
 	"strings"
+	"syscall"
+	"time"
 
 	"github.com/bolkedebruin/rdpgw/cmd/rdpgw/identity"
 	"github.com/bolkedebruin/rdpgw/cmd/rdpgw/protocol"
@@ -407,8 +410,101 @@ func runC03(r *Run) {
 			}
 		}
 	}
+	c03Special(r, listeners)
 	r.extra["model_disagreements"] = drift
 	if drift > 0 && !r.HasViolation() {
 		r.Unproven(fmt.Sprintf("correspondence (Policy.checkHost / checkSession / Utf16.decode / channel-create) broke on %d cases with no policy-violating connection found", drift), first)
+	}
+}
+
+// c03Special: flows in which a connection to *some* address would be easy to make by mistake.
+//
+//	(a) the requested host passes policy but cannot be reached, and the packet names an alternate that
+//	    listens on the same port of another address: nothing may be dialled but the requested host;
+//	(b) an accepted token names host A: no connection goes to A (or anywhere) before CHANNEL_CREATE
+//	    passes policy — not when the channel is refused (another host is asked for, or the client's
+//	    address differs), not when it is never asked for; and exactly one when it is accepted.
+func c03Special(r *Run, listeners []*hostListener) {
+	// ---- (a)
+	for attempt := 0; attempt < 5; attempt++ {
+		alt := newHostListenerOn(net.IPv4(127, 0, 0, 2))
+		_, q := splitHostPort(alt.addr)
+		fd, err := syscall.Socket(syscall.AF_INET, syscall.SOCK_STREAM, 0)
+		if err != nil || syscall.Bind(fd, &syscall.SockaddrInet4{Port: q, Addr: [4]byte{127, 0, 0, 1}}) != nil {
+			if err == nil {
+				syscall.Close(fd)
+			}
+			alt.close()
+			continue // the port is taken on 127.0.0.1: try another
+		}
+		primary := fmt.Sprintf("127.0.0.1:%d", q)
+		cfg := &gwCfg{hcheck: true, hosts: []string{primary}}
+		for _, alts := range [][]string{{"127.0.0.2"}, {"127.0.0.2", "localhost"}} {
+			var an [][]byte
+			for _, a := range alts {
+				an = append(an, append(utf16le(a), 0, 0))
+			}
+			reads := [][]byte{
+				mkPacket(tHandshake, bodyHandshake(1, 0, 0, 0)), mkPacket(tTunnel, bodyTunnelCreate(0, 0, nil)), mkPacket(tAuth, bodyTunnelAuth(append(utf16le("PC"), 0, 0))),
+				mkPacket(tChannel, bodyChannelMulti(q, [][]byte{append(utf16le("127.0.0.1"), 0, 0)}, an)),
+			}
+			ir := runProcess(cfg, reads, []*hostListener{alt})
+			r.Count(fmt.Sprintf("alternate:%v", alts))
+			if ir.accepted[alt.addr] > 0 {
+				r.Violation("c03-dial", "the gateway connected to an address that the policy does not allow for this request, or to another address than the requested one",
+					fmt.Sprintf("policy allows only %s (nothing listens there); CHANNEL_CREATE names 127.0.0.1 port %d with alternate names %v; a listener on 127.0.0.2:%d accepted %d connection(s)\ntrace: %s\n", primary, q, alts, q, ir.accepted[alt.addr], implModelCanon(ir, true)))
+			}
+		}
+		syscall.Close(fd)
+		alt.close()
+		break
+	}
+	// ---- (b)
+	idp := setupSecurity()
+	idp.setToken("at-c03-early", "ok:alice")
+	id, _ := enrich(addrSpec{peer: "198.51.100.7:4000", xff: []string{"192.0.2.50"}}.request())
+	id.SetAttribute(identity.AttrAccessToken, "at-c03-early")
+	a, b := listeners[0], listeners[1]
+	tok, err := security.GeneratePAAToken(ctxWithIdentity(id), "alice", a.addr)
+	if err != nil {
+		r.Note("could not mint a token: " + err.Error())
+		return
+	}
+	security.Hosts = []string{a.addr, b.addr}
+	security.HostSelection = "roundrobin"
+	security.VerifyClientIP = true
+	cc := func(l *hostListener) []byte {
+		h, p := splitHostPort(l.addr)
+		return mkPacket(tChannel, bodyChannel(p, append(utf16le(h), 0, 0)))
+	}
+	pre := [][]byte{mkPacket(tHandshake, bodyHandshake(1, 0, 0, 2)), mkPacket(tTunnel, bodyTunnelCreate(0, 1, append(utf16le(tok), 0, 0))), mkPacket(tAuth, bodyTunnelAuth(append(utf16le("PC"), 0, 0)))}
+	for _, fl := range []struct {
+		name  string
+		reads [][]byte
+		ip    string
+		want  int
+	}{
+		{"token for A, channel to B asked (refused: not the token's host)", append(append([][]byte{}, pre...), cc(b)), "192.0.2.50", 0},
+		{"token for A, channel to A asked from another client address (refused)", append(append([][]byte{}, pre...), cc(a)), "192.0.2.51", 0},
+		{"token for A, no channel asked", append(append([][]byte{}, pre...), mkPacket(0x33, nil)), "192.0.2.50", 0},
+		{"token for A, channel to A asked (accepted)", append(append([][]byte{}, pre...), cc(a)), "192.0.2.50", 1},
+	} {
+		ir := runProcessWith(&gwCfg{token: true}, fl.reads, listeners, func(t *protocol.Tunnel, g *protocol.Gateway) context.Context {
+			g.CheckPAACookie = security.CheckPAACookie
+			g.CheckHost = security.CheckSession(security.CheckHost)
+			t.User.SetAttribute(identity.AttrClientIp, fl.ip)
+			ctx := context.WithValue(context.Background(), protocol.CtxTunnel, t)
+			return context.WithValue(ctx, identity.CTXKey, identity.Identity(t.User))
+		})
+		time.Sleep(30 * time.Millisecond)
+		total := 0
+		for _, l := range listeners {
+			total += ir.accepted[l.addr] + l.poll()
+		}
+		r.Count("early-connect:" + fl.name)
+		if total != fl.want {
+			r.Violation("c03-dial", "the gateway connected to an address that the policy does not allow for this request, or to another address than the requested one",
+				fmt.Sprintf("%s\nconnections seen at the hosts: %d (A %s: %d), expected %d\ntrace: %s\n", fl.name, total, a.addr, ir.accepted[a.addr], fl.want, implModelCanon(ir, true)))
+		}
 	}
 }
